@@ -35,6 +35,12 @@ var topos = []topo{
 	{"P>C", []string{"c", "c0"}, []int{0, 1}},           // parent limited first, then its child
 	{"U+Uf+C", []string{"c", "f", "c"}, []int{2}},       // two unreferenced quotas: both system Incs are live, in file order
 	{"P/C1,C2", []string{"c", "c0", "c0"}, []int{1, 2}}, // two children of one parent, both limited
+	// mixed trees: the flow limits on the child
+	{"P/f", []string{"c", "f0"}, []int{1}},         // fixed-window internal limit under a concurrent quota
+	{"P/f/f", []string{"c", "f0", "f1"}, []int{2}}, // fixed-window grandchild
+	{"F/c", []string{"f", "c0"}, []int{1}},         // concurrent internal limit under a fixed-window quota
+	{"P/f/c", []string{"c", "f0", "c1"}, []int{2}}, // concurrent under fixed-window under concurrent
+	{"P/f+P", []string{"c", "f0"}, []int{1, 0}},    // child first, then its concurrent parent
 }
 
 type gcfg struct {
@@ -61,6 +67,8 @@ func (g gcfg) line() string {
 		switch {
 		case q == "f":
 			fmt.Fprintf(&b, " q%d=f", i)
+		case q[0] == 'f':
+			fmt.Fprintf(&b, " q%d=f,%s", i, q[1:])
 		case q == "c":
 			fmt.Fprintf(&b, " q%d=c,%d,%d,-", i, g.max[i], g.expSec[i])
 		default:
@@ -105,7 +113,7 @@ func (h *hist) req(id int, post bool) {
 	}
 	h.ops = append(h.ops, fmt.Sprintf("req r=%d m=%s", id, m))
 	for i, q := range h.g.tp.quotas {
-		if q != "f" {
+		if q[0] == 'c' {
 			h.expiry = append(h.expiry, h.now+h.g.expSec[i]*sec+deltaD)
 		}
 	}
@@ -362,7 +370,7 @@ func gen(r *prng.R, f proto.Flags, emit func(proto.Case)) {
 			emit(proto.Case{ID: fmt.Sprintf("crowd%d-%d", mx, gcs), Ops: h.ops})
 		}
 	}
-	genStress(emit)
+	genStress(emit, f.Tier == "thorough")
 	if f.Tier == "thorough" {
 		exhaustive(emit)
 	}
